@@ -1,6 +1,6 @@
 """Triage: request_stream(p).cancel() and request_channel(p).cancel() without subscribing - the only way to give the
 id the call registered back.  Expected (C08): nothing is written for a stream id that no request frame has opened.
-Observed before 965a694 (F28; the channel half is still open): CancelFrame on streams 1 and 3 right after SETUP; the channel requester stays registered."""
+Observed before 965a694 / a34a39e (F28): CancelFrame on streams 1 and 3 right after SETUP; the channel requester stays registered."""
 import asyncio, logging, sys
 from rsocket.payload import Payload
 from rsocket.request_handler import BaseRequestHandler
